@@ -17,7 +17,7 @@
              'ghost': 'g_i = C08_IDX(str, g_s0); g_strchr_L = g_L - g_i; g_strchr_k = g_k - g_i;'},
             {'file': 'compat/libc/string/strrchr.c', 'func': 'strrchr', 'ghost': 'g_end = g_i + g_strchr_end;', 'at': 'before', 'anchor': 'return (char *) found;'}],
  'ghost_calls': ['C08_IDX'],
- 'params': {'C08_FIXOFF': [0, 3]},
+ 'params': {'C08_FIXOFF': [0]}, 'params_thorough': {'C08_FIXOFF': [0, 3]},
  'witness': {'unwind': 8},
 } @*/
 #include "c08_harness.h"
